@@ -76,10 +76,19 @@ def err_id(e):
     return -100  # unknown library error
 
 
+class SubscriberError(Exception):
+    """raised by run_hot's logging subscriber from its terminal callbacks when asked to (subscriber_raises)"""
+
+
 class HotSource:
     """Observable whose observers the harness drives by hand; logs subscribe /
     dispose instants (input positions).  A notification is pushed to every
-    subscription that has not been disposed."""
+    subscription that has not been disposed.
+    `sync` (optional, armed by run_hot(sync_prefix=p)): events the source delivers INSIDE subscribe() to the
+    next subscriber, before subscribe() returns -- a source that emits a prefix and/or terminates in its own
+    subscribe().  The clock reads k+1 while the k-th of them is delivered (the tag Ops/Machine.v:exec gives the
+    k-th input) and keeps the last reading until the first pushed input: work the prefix set off that runs when
+    subscribe() unwinds (trampolined continuations, the release of the subscription) belongs to that input."""
 
     def __init__(self, clock):
         import reactivex
@@ -87,6 +96,8 @@ class HotSource:
         self.observers = []    # [observer, live]
         self.log = []          # ('sub', idx, tag) / ('unsub', idx, tag)
         self.clock = clock
+        self.sync = None       # list of events for the NEXT subscription only
+        self.sync_escapes = []
 
         def subscribe(observer, scheduler=None):
             idx = len(self.observers)
@@ -97,6 +108,23 @@ class HotSource:
             def dispose():
                 rec[1] = False
                 self.log.append(("unsub", idx, clock[0]))
+            if self.sync is not None:
+                evs, self.sync = self.sync, None
+                for k, ev in enumerate(evs):
+                    clock[0] = k + 1
+                    if not rec[1]:
+                        continue
+                    try:
+                        if ev[0] == "N":
+                            observer.on_next(ev[1])
+                        elif ev[0] == "E":
+                            observer.on_error(ev[1])
+                        else:
+                            observer.on_completed()
+                    except SubscriberError:
+                        pass
+                    except Exception as e:
+                        self.sync_escapes.append((k + 1, e))
             return Disposable(dispose)
         self.observable = reactivex.Observable(subscribe)
 
@@ -113,11 +141,21 @@ class HotSource:
                 o.on_completed()
 
 
-def run_hot(build, inputs, dispose_at=None, warmup=None):
+def run_hot(build, inputs, dispose_at=None, warmup=None, subscriber_raises=False, dispose_in_on_next=None,
+            sync_prefix=0):
     """inputs: list of ('N', value) | ('E', exception) | ('C',).
     warmup: optional list of events for an EARLIER subscription of the same
     observable object, which is disposed before the measured subscription starts
     (cold re-subscription: per-subscription state must start fresh).
+    Optional, all off by default (the defaults reproduce the behaviour every existing caller relies on):
+      subscriber_raises   the logging subscriber's on_error / on_completed raise SubscriberError after logging
+      dispose_in_on_next  k >= 1: the subscriber calls dispose() on its own subscription from INSIDE its k-th
+                          on_next (only if subscribe() has returned by then); the result carries
+                          inner_dispose = dict(tag, out, sublog, calls) = the lengths of the three append-only
+                          logs at the moment dispose() RETURNED (anything behind these positions happened
+                          after it) -- or None when it was never issued
+      sync_prefix         p: the source delivers inputs[:p] inside its own subscribe() (first measured
+                          subscription), tagged 1..p like the same inputs delivered later; the rest is pushed as usual
     -> dict(out=[(tag, kind, payload)], escapes=[(tag, exc)], sublog=[...], build_error=None|exc)"""
     clock = CURRENT_TAG
     clock[0] = 0
@@ -146,27 +184,57 @@ def run_hot(build, inputs, dispose_at=None, warmup=None):
         base = len(src.observers)
     else:
         base = 0
+    holder = [None]           # the subscription, once subscribe() has returned
+    nexts = [0]
+    inner = [None]
+
+    def on_next(v):
+        out.append((clock[0], "N", v))
+        if dispose_in_on_next is not None:
+            nexts[0] += 1
+            if nexts[0] == dispose_in_on_next and holder[0] is not None and inner[0] is None:
+                holder[0].dispose()
+                inner[0] = {"tag": clock[0], "out": len(out), "sublog": len(src.log), "calls": len(CALLS)}
+
+    def on_error(e):
+        out.append((clock[0], "E", e))
+        if subscriber_raises:
+            raise SubscriberError()
+
+    def on_completed():
+        out.append((clock[0], "C", None))
+        if subscriber_raises:
+            raise SubscriberError()
+    if sync_prefix:
+        src.sync = list(inputs[:sync_prefix])
     try:
-        sub = obs.subscribe(lambda v: out.append((clock[0], "N", v)),
-                            lambda e: out.append((clock[0], "E", e)),
-                            lambda: out.append((clock[0], "C", None)))
+        sub = obs.subscribe(on_next, on_error, on_completed)
+    except SubscriberError:
+        sub = None
     except Exception as e:   # raised out of subscribe()
         escapes.append((0, e))
         sub = None
+    src.sync = None
+    escapes.extend(src.sync_escapes)
+    holder[0] = sub
     disposed_at = None
     for k, ev in enumerate(inputs):
+        if k < sync_prefix:
+            continue
         clock[0] = k + 1
         if dispose_at is not None and dispose_at == k and sub is not None:
             sub.dispose()
             disposed_at = len(out)
         try:
             src.push(ev)
+        except SubscriberError:
+            pass             # the subscriber's own terminal callback raised: expected to reach the emitter
         except Exception as e:
             escapes.append((k + 1, e))
     sublog = [(w, i - base, t) for (w, i, t) in src.log]
     return {"out": out, "escapes": escapes, "sublog": sublog, "build_error": None,
             "disposed_at": disposed_at, "n_subscriptions": len(src.observers) - base, "raised": list(RAISED),
-            "calls": list(CALLS)}
+            "calls": list(CALLS), "inner_dispose": inner[0]}
 
 
 def g_ev(kind, payload, enc):
